@@ -40,11 +40,29 @@ def _run_z3(args):
         return ("error", None, round(time.time() - t0, 3), f"z3 error: {ex}")
 
 
+def _parse_cvc5_model(text):
+    """constants of sort String/Int/Bool/Real from cvc5's (get-model) output"""
+    import re
+    model = {}
+    for m in re.finditer(r'\(define-fun\s+(\|[^|]*\||\S+)\s+\(\)\s+(\w+)\s+(.*?)\)\s*$', text, re.M):
+        name, sort, val = m.group(1).strip("|"), m.group(2), m.group(3).strip()
+        if sort == "String" and val.startswith('"'):
+            v = val[1:-1].replace('""', '"')
+            v = re.sub(r'\\u\{([0-9a-fA-F]+)\}', lambda q: chr(int(q.group(1), 16)), v)
+            model[name] = '"' + v + '"'
+        elif sort == "Int":
+            mm = re.fullmatch(r'\(-\s*(\d+)\)', val)
+            model[name] = ("-" + mm.group(1)) if mm else val
+        elif sort in ("Bool", "Real"):
+            model[name] = val
+    return model
+
+
 def _run_cvc5(args):
     smt2, timeout_ms = args
     t0 = time.time()
     with tempfile.NamedTemporaryFile("w", suffix=".smt2", delete=False) as fh:
-        fh.write("(set-logic ALL)\n" + smt2)
+        fh.write("(set-logic ALL)\n(set-option :produce-models true)\n" + smt2 + "\n(get-model)\n")
         name = fh.name
     try:
         p = subprocess.run(["/usr/bin/cvc5", "--strings-exp", f"--tlimit={timeout_ms}", name],
@@ -53,6 +71,8 @@ def _run_cvc5(args):
         r = out[0] if out else "unknown"
         if r not in ("sat", "unsat"):
             r = "unknown"
+        if r == "sat":
+            return (r, round(time.time() - t0, 3), _parse_cvc5_model(p.stdout))
         return (r, round(time.time() - t0, 3), (p.stderr or "")[:200])
     except Exception as ex:
         return ("unknown", round(time.time() - t0, 3), str(ex)[:200])
@@ -63,11 +83,97 @@ def _run_cvc5(args):
 _pool = None
 
 
+def _child(fn, args, conn):
+    try:
+        conn.send(fn(args))
+    except Exception as ex:   # pragma: no cover
+        conn.send(("error", None, 0.0, str(ex)))
+    finally:
+        conn.close()
+
+
+class _HardPool:
+    """map() over a thread pool in which every task runs in its own forked
+    process that is killed when it exceeds its budget: z3's own time limit is not
+    honoured by every theory (strings, nonlinear arithmetic), a hard kill is."""
+
+    def __init__(self, n):
+        from multiprocessing.pool import ThreadPool
+        self.tp = ThreadPool(n)
+        self.ctx = mp.get_context("fork")
+
+    def _one(self, job):
+        fn, args, budget_s = job
+        parent, child = self.ctx.Pipe(duplex=False)
+        p = self.ctx.Process(target=_child, args=(fn, args, child))
+        t0 = time.time()
+        p.start()
+        child.close()
+        res = None
+        try:
+            if parent.poll(budget_s):
+                res = parent.recv()
+        except (EOFError, OSError):
+            res = None
+        if p.is_alive():
+            p.terminate()
+            p.join(1)
+            if p.is_alive():
+                p.kill()
+        p.join(1)
+        parent.close()
+        if res is None:
+            if fn is _run_cvc5:
+                return ("unknown", round(time.time() - t0, 3), "killed after hard timeout")
+            return ("unknown", None, round(time.time() - t0, 3), "killed after hard timeout")
+        return res
+
+    def map(self, fn, argslist, chunksize=1):
+        jobs = []
+        for a in argslist:
+            to_ms = a[1]
+            jobs.append((fn, a, to_ms / 1000.0 + 3.0))
+        return self.tp.map(self._one, jobs, chunksize=1)
+
+    def terminate(self):
+        self.tp.terminate()
+
+
+class _Hybrid:
+    """ordinary process pool for ordinary queries; queries whose text mentions
+    strings go to the hard-kill pool"""
+
+    def __init__(self, n):
+        self.fast = mp.get_context("fork").Pool(n)
+        self.hard = _HardPool(n)
+
+    def map(self, fn, argslist, chunksize=1):
+        argslist = list(argslist)
+        risky = [i for i, a in enumerate(argslist) if "String" in a[0] or "str." in a[0]]
+        rs = set(risky)
+        safe = [i for i in range(len(argslist)) if i not in rs]
+        out = [None] * len(argslist)
+        r_async = None
+        if safe:
+            r_async = self.fast.map_async(fn, [argslist[i] for i in safe], chunksize=1)
+        if risky:
+            for i, r in zip(risky, self.hard.map(fn, [argslist[i] for i in risky])):
+                out[i] = r
+        if r_async is not None:
+            for i, r in zip(safe, r_async.get()):
+                out[i] = r
+        return out
+
+    def terminate(self):
+        self.fast.terminate()
+        self.hard.terminate()
+
+
 def pool():
     global _pool
     if _pool is None:
         n = int(os.environ.get("VERIF_JOBS", "0")) or min(16, os.cpu_count() or 4)
-        _pool = mp.get_context("fork").Pool(n)
+        _pool = _Hybrid(n)
     return _pool
 
 
@@ -94,15 +200,22 @@ def discharge(obligations, timeout_ms=10000, cross_check=False):
     pre = []
     for (i, smt2, to, wm) in jobs:
         ob = obligations[i]
-        if ob.kind != "canary" and ob.has_quantified_pc():
-            pre.append((i, ob.smt2(qf_only=True)))
+        if ob.kind == "canary":
+            continue
+        if z3.is_false(ob.goal):
+            continue       # "this path is infeasible": needs the whole path condition
+        sl, n = ob.smt2_sliced()
+        if n < len(ob.pc):
+            pre.append((i, sl, "cone of influence of the goal"))
+        elif ob.has_quantified_pc():
+            pre.append((i, ob.smt2(qf_only=True), "quantifier-free part of the path condition"))
     if pre:
         outs0 = pool().map(_run_z3, [(p[1], min(timeout_ms, 4000), False) for p in pre], chunksize=1)
         done = set()
-        for (i, _), (r, model, t, reason) in zip(pre, outs0):
+        for (i, _, how), (r, model, t, reason) in zip(pre, outs0):
             if r == "unsat":
                 results[i] = {"verdict": "unsat", "backend": "z3", "time_s": t,
-                              "note": "discharged from the quantifier-free part of the path condition"}
+                              "note": "discharged from the " + how}
                 done.add(i)
         jobs = [j for j in jobs if j[0] not in done]
     if jobs:
@@ -128,12 +241,14 @@ def discharge(obligations, timeout_ms=10000, cross_check=False):
                     results[i].update({"verdict": r, "model": model, "reason": "", "retried": True})
             retry = [x for x in retry if results[x[0]]["verdict"] == "unknown" or cross_check]
         if retry:
-            outs = pool().map(_run_cvc5, [(j[1], j[2]) for j in retry], chunksize=1)
+            outs = pool().map(_run_cvc5, [(j[1], max(30000, 3 * j[2])) for j in retry], chunksize=1)
             for (i, smt2, to), (r, t, err) in zip(retry, outs):
                 res = results[i]
                 if res["verdict"] == "unknown":
                     if r in ("sat", "unsat"):
                         res.update({"verdict": r, "backend": "cvc5", "time_s": res["time_s"] + t})
+                        if r == "sat" and isinstance(err, dict):
+                            res["model"] = err
                     else:
                         res["cvc5"] = "unknown"
                 else:
